@@ -121,6 +121,9 @@ pub enum ROp {
     /// read until `total` more bytes of the open file were returned (or its end), with buffers of at most n bytes:
     /// how a caller stops exactly at a chosen position
     ReadExact { total: usize, n: usize },
+    /// read the open file to its end with buffers of n bytes, keeping only its length and SHA-256 (files too large
+    /// to hold in memory)
+    ReadAllDigest { n: usize },
 }
 
 #[derive(Clone, Debug, PartialEq)]
@@ -131,6 +134,7 @@ pub enum RRes {
     NoFile,
     Bytes(Vec<u8>),
     Hash([u8; 32]),
+    Digest { len: u64, sha: [u8; 32] },
     Err(String),
 }
 
